@@ -22,7 +22,7 @@ class PackOperator(AbstractLinearOperator):
         self._in_structure = in_structure
 
     def mv(self, x: PyTree[Array, '...']) -> PyTree[Array]:
-        return x[self.mask]
+        return jax.tree.map(lambda leaf: leaf[self.mask], x)
 
     def in_structure(self) -> PyTree[jax.ShapeDtypeStruct]:
         return self._in_structure
